@@ -758,9 +758,9 @@ pub fn cases(tier: Tier) -> Vec<Case> {
             out.push(c("hull", dup, 0, 0.0));
         }
     }
-    // diameters: every subset of 3..4 (thorough 5) points of the 5x5 lattice
+    // diameters: every subset of 3..4 (thorough 6) points of the 5x5 lattice
     {
-        let kmax = tier.pick(4, 5);
+        let kmax = tier.pick(4, 6);
         fn subsets(start: usize, cur: &mut Vec<usize>, kmax: usize, out: &mut Vec<Vec<usize>>) {
             if cur.len() >= 3 {
                 out.push(cur.clone());
@@ -791,7 +791,7 @@ pub fn cases(tier: Tier) -> Vec<Case> {
         }
     }
     // polygons: every cyclic sequence of 3..tier distinct lattice points (simplicity tested inside)
-    let maxlen = tier.pick(5, 6);
+    let maxlen = tier.pick(5, 7);
     fn rec(cur: &mut Vec<usize>, maxlen: usize, out: &mut Vec<Vec<usize>>) {
         if cur.len() >= 3 {
             out.push(cur.clone());
@@ -841,7 +841,7 @@ pub fn cases(tier: Tier) -> Vec<Case> {
 pub fn run(tier: Tier) -> i32 {
     let mut cx = Ctx::new("C15", tier, "exploration");
     cx.rule = "kd-trees: every multiset of <= 4 points of the 3x3 lattice and <= 3 of the 2x2x2 lattice (duplicates included), 4 structured large sets (8x8 grid, 40 duplicates, 1000 collinear, two clusters) x a half-integer query grid x k in {1,2,3,n,n+2} x 5 radii; partial tree: every ordered subset of <= 4 of 6 points; Poisson disk: every ordering of every subset (2..5) of 6 lattice points x 4 radii; hulls: every subset of 3..6 lattice points (+ duplicates); farthest pair on the hull of every subset of 3..4 (thorough 5) points of a 5x5 lattice given as a polygon from every start vertex; every simple lattice polygon with <= 5 (thorough 6) vertices in both orientations for order detection, from_points_ccw and ball pivot at 3 radii; mesh sampling with the RNG owned by the explorer: all 216 draw triples per mesh for sample_uniform, dense sampling at 3 spacings, the Poisson sampler's shuffle explored with <= 2 non-default draws. distinct = distinct cases".into();
-    cx.bounds = json!({"kd2_multiset": 4, "kd3_multiset": 3, "partial_subset": 4, "poisson_subset": 5, "polygon_vertices": tier.pick(5, 6), "rng_alphabet": 6, "shuffle_deviations": 2});
+    cx.bounds = json!({"kd2_multiset": 4, "kd3_multiset": 3, "partial_subset": 4, "poisson_subset": 5, "polygon_vertices": tier.pick(5, 7), "rng_alphabet": 6, "shuffle_deviations": 2});
     cx.require(&["ball pivot round an open row", "ball pivot at another length unit", "kd-tree with duplicate points", "kd-tree with distinct points", "kd-tree at another length unit", "3D kd-tree", "structured large kd-tree", "kd-tree over gridded mesh samples", "index-remapped partial tree", "poisson-disk ordering", "collinear point set", "point set with duplicates", "general point set", "convex polygon given directly, every start vertex", "counter-clockwise simple polygon", "clockwise simple polygon", "ball pivot run", "ball pivot outline with filled gaps", "scripted uniform draw", "dense sampling", "scripted shuffle of the mesh Poisson sampler"]);
     cx.assume("ties exactly on the k-th neighbour or the radius boundary are gray (either answer accepted); uniformity beyond 'the face is the inverse-CDF image of the draw' is not claimed");
     let cs = cases(tier);
